@@ -287,6 +287,8 @@ def check_case(case, res=None):
 
 
 def run_task(task):
+    from vlib import specgen as _sg
+    _sg.set_tier(task.get("_tier"))
     res = TaskResult()
     try:
         hyp.campaign(gencase.tree_and_items(features=FEATURES, n_classes=3, n_objects=2,
